@@ -44,7 +44,7 @@ m = {
    "guard": "verif",
    "enable": "go build -tags verif (harness module with replace go.uber.org/dig => /repo)",
    "baseline_off_cmd": "/verif/tools/baseline.sh",
-   "source_commits": ["171c908", "b5c7647", "094fcbe"],
+   "source_commits": ["171c908", "b5c7647", "094fcbe", "6880942"],
    "add_only": True
  },
  "engines": [{"name": "dig-tla", "path": "/verif/spec", "serves_properties": sorted(props.keys()),
